@@ -572,7 +572,9 @@ _UFUNC = {
     "maximum": _max, "minimum": _min, "fmax": _max, "fmin": _min,
     "square": lambda a: a * a, "sign": _sign,
     "reciprocal": lambda a: 1 / a,
-    "isnan": lambda a: False, "isfinite": lambda a: True, "isinf": lambda a: False,
+    "isnan": lambda a: False if isinstance(a, Sym) else bool(np.isnan(a)),
+    "isfinite": lambda a: True if isinstance(a, Sym) else bool(np.isfinite(a)),
+    "isinf": lambda a: False if isinstance(a, Sym) else bool(np.isinf(a)),
     "conjugate": lambda a: a,
 }
 for _n in ("sqrt", "exp", "log", "tanh", "arctanh", "cosh", "sinh", "cos", "sin", "tan", "arctan"):
@@ -599,7 +601,8 @@ def _array_ufunc(self, ufunc, method, *inputs, **kwargs):
            else i for i in inputs]
     if not any(isinstance(i, np.ndarray) for i in ins):
         r = f(*ins)
-        r = bool(r) if name in _CMP else r
+        # numpy semantics: comparisons of 0-d arrays give np.bool_ (so that ~r is logical)
+        r = np.bool_(bool(r)) if name in _CMP else r
     else:
         r = np.frompyfunc(f, len(ins), 1)(*[_box(v) for v in ins])
         if name in _CMP:
